@@ -43,9 +43,10 @@ CHECKS = {
          "Every failing recorded behaviour (all truncation offsets of canonical encodings of nested named structures, every member made unbuildable in turn, random inputs) is replayed by TLC: the path equals the operation prefix plus the Renamed names on the stack where the error was created and is kept while propagating; truncation at j names the members whose recorded extent contains j."),
  "C20": ("TLC model checking of the container heap model (spec/Containers.tla, Hex.tla; MC_C20: equivalence laws, copy independence, hexundump o hexdump) + TLC replay (TraceC20) of operation histories executed on real containers with full three-view projections", "4.C20",
          "Design level: all operation histories to the bound on heaps with public / private / method-shadowing keys and nested containers: Eq reflexive, symmetric, transitive, order- and private-insensitive; shallow copies independent at top level, deep copies and pickle round trips disjoint. Conformance: random histories (set / setattr / del / pop / clear / update / append / copy / deepcopy / pickle with every protocol / search) on real objects, after every step the whole object graph projected through attributes, keys and iteration with identities and equality results, replayed by TLC on the model; hexdump text compared character by character and read back."),
+ "C19": ("translation validation: TLC interprets the real export_ksy() document with the KSY interpreter spec/Ksy.tla on canonical encodings and compares identifiers, extents and values with the recorded, Sem-validated parse (TraceKsy.tla)", "4.C19",
+         "For every generated construct whose export succeeds (through a JSON-writing stand-in for the absent ruamel.yaml that, like the real representer, refuses non-plain data) and several canonical encodings each, the exported schema is executed by an interpreter written from the Kaitai user guide and compared member by member with what parsing did. Discrepancies of the pinned exporter are listed by construct class in known_findings.json; anything else alarms."),
 }
 PENDING = {
- "C19": "check under construction in this round (Ksy.tla; DESIGN.md 4.C19)",
 }
 def main():
     commits = subprocess.run(["git", "-C", "/repo", "log", "--format=%h %s"], capture_output=True, text=True).stdout.splitlines()
@@ -62,7 +63,8 @@ def main():
      "engines": [
       {"name": "cam-trace", "path": "/verif/spec/Trace.tla", "kind_free_text": "TLC trace validation: construct-boundary behaviours recorded from the real library (hook + harness) are compared with the behaviour Sem prescribes; property predicates of spec/Props.tla evaluated on the recorded sessions", "serves_properties": sorted(CHECKS)},
       {"name": "cam-machine", "path": "/verif/spec/CAM.tla", "kind_free_text": "TLC replay of recorded behaviours through the pushdown machine, one boundary event per state, machine-level clauses at every leave step", "serves_properties": ["C06", "C09", "C14", "C18"]},
-      {"name": "mc-design", "path": "/verif/spec", "kind_free_text": "TLC model checking of the specification alone on bounded universes (MC_*.tla)", "serves_properties": ["C03"]}],
+      {"name": "mc-design", "path": "/verif/spec", "kind_free_text": "TLC model checking of the specification alone on bounded universes (MC_Codecs, MC_C11, MC_C16, MC_C17, MC_C20) with negative controls", "serves_properties": ["C03", "C04", "C11", "C16", "C17", "C20"]},
+      {"name": "trace-expr / trace-c20 / trace-ksy", "path": "/verif/spec/TraceExpr.tla", "kind_free_text": "TLC validation of recorded expression evaluations, container operation histories and exported KSY documents against ExprRender.tla / Containers.tla / Ksy.tla", "serves_properties": ["C11", "C19", "C20"]}],
      "checks": [],
      "notes": "All checks: ./check <id> [--tier quick|thorough] [--replay PATH]; exit 0 held / 1 VIOLATION / 2 machinery failure. See DESIGN.md.",
      "not_applicable": [{"property_id": k, "reason": v} for k, v in sorted(PENDING.items()) if k not in CHECKS]}
@@ -75,7 +77,7 @@ def main():
          "evidence_file": "/verif/evidence/%s.json" % pid,
          "replay_cmd_template": "./check %s --replay {path}" % pid,
          "engine": "cam-trace",
-         "level_claimed": {"category": "model_checking", "text": text, "design_ref": "DESIGN.md " + ref},
+         "level_claimed": {"category": "translation_validation" if pid == "C19" else "model_checking", "text": text, "design_ref": "DESIGN.md " + ref},
          "level_note": TB,
          "technique": tech})
     with open(os.path.join(HERE, "MANIFEST.json"), "w") as f:
